@@ -26,7 +26,10 @@ mention and that therefore must not change the number of executions:
   exc: spec | [spec...]       the exception of the i-th failing attempt (the list cycles); see "how an attempt fails" below:
                               every exception class taskiq ships (enumerated at run time), builtins, user subclasses of
                               both, exception groups, chained exceptions, and failures produced by taskiq's own code paths
-                              (waiting for a sub-task whose result never arrives, a failing result backend, ctx.reject(), ...)
+                              (waiting for a sub-task whose result never arrives, a failing result backend, ctx.reject(), ...);
+                              also failures that are BaseExceptions but not Exceptions: asyncio.CancelledError leaking out of
+                              the task because an awaited inner task / future was cancelled, SystemExit (sys.exit() in library
+                              code), KeyboardInterrupt, a user's own BaseException subclass, BaseExceptionGroup
   nr: spec                    how an "N" attempt signals no-result: NoResultError itself or a subclass of it declared HERE
   mw_before / mw_mid / mw_after: [kind...]   other middlewares before RecMiddleware, between it and the retry
                               middleware, after the retry middleware (kinds: see MW_KINDS); mw_late: they are added
@@ -140,23 +143,36 @@ MW_KINDS = dict(plain=MwPlain, sync_err=MwSyncErr, async_err=MwAsyncErr, subst=M
 # data, chosen by the generator); whether an attempt is "F" or "N" is decided by the CASE (env["exc"] is only ever used for
 # "F" attempts, env["nr"] for "N" attempts) - never by asking taskiq's class hierarchy what a class derives from.
 #   {"k": "taskiq", "mod": m, "name": n}      a class taskiq ships, looked up by name (list: enumerate_taskiq_exceptions)
-#   {"k": "builtin", "name": n}               BUILTIN_EXC[n]
+#   {"k": "builtin", "name": n}               BUILTIN_EXC[n], or BASE_EXC[n]: a BaseException that is NOT an Exception
+#                                             (asyncio.CancelledError, SystemExit, KeyboardInterrupt, BaseException)
 #   {"k": "user", "base": spec, "also": builtin name | None, "name": class name, "traits": [...]}
 #                                             a user's subclass of a taskiq / builtin class (optionally of a second, builtin
 #                                             base; traits: falsy, eq_all, unhashable, str_raises - odd but legal dunder methods)
-#   {"k": "group", "of": [spec...]}           ExceptionGroup of failures
+#   {"k": "group", "of": [spec...]}           ExceptionGroup of failures (BaseExceptionGroup as soon as one member is not an
+#                                             Exception - Python's own rule, BaseExceptionGroup(..) picks the class)
 #   {"k": "real", "how": h}                   the failure is produced by taskiq's own code, called the way a task would:
 #       wait_result / wait_result_sent / gather   the task awaits a sub-task's result with a timeout and it never arrives
 #       is_ready_raises / get_result_raises        the result backend fails while the task waits for a sub-task
 #       reject                                     ctx.reject()
 #       shared_kiq                                 kiq of a task of a shared broker that has no default broker
-#   on any of them: "chain": "cause_nr" | "context_nr" | "cause_other" (raise .. from NoResultError() / raised while a caught
-#   NoResultError is being handled / from OSError), "reuse": the same exception object on every attempt, "bare": the class
-#   itself is raised (`raise Cls`).
-# nr spec: {"k": "nr" | "nr_sub" | "nr_subsub", "chain": "cause_fail" | "context_fail" | None, "bare": bool}
-# Out of scope (said in notes/C11.md): BaseExceptions that are not Exceptions (CancelledError, KeyboardInterrupt, SystemExit,
-# GeneratorExit), StopIteration / StopAsyncIteration (Python itself rewrites them at function boundaries), exception groups
-# that CONTAIN a no-result signal (neither clearly a failure nor clearly the signal).
+#     ... or by Python's / asyncio's own code, the way a BaseException that is not an Exception reaches a task body:
+#       cancelled_task      the task awaits an inner asyncio task that it (or somebody) cancelled: CancelledError leaks out
+#       cancelled_future    the task awaits a bare future that a loop callback cancels (with a message) meanwhile
+#       cancelled_gather    the task awaits asyncio.gather(..) of inner tasks one of which gets cancelled
+#       cancelled_wait_for  the task awaits asyncio.wait_for(inner, 10) and inner is cancelled long before the timeout
+#       sys_exit            library code called by the task calls sys.exit(..)
+#     (the body's own callback task is never cancelled: that is the worker's control flow, not a failing attempt)
+#   on any of them: "chain": "cause_nr" | "context_nr" | "cause_other" | "cause_base" | "context_base" (raise .. from
+#   NoResultError() / raised while a caught NoResultError is being handled / from OSError / from a CancelledError / raised while
+#   a caught CancelledError is being handled), "reuse": the same exception object on every attempt, "bare": the class itself is
+#   raised (`raise Cls`).
+# nr spec: {"k": "nr" | "nr_sub" | "nr_subsub", "chain": "cause_fail" | "context_fail" | "cause_base" | "context_base" | None,
+#           "bare": bool}
+# Out of scope (said in notes/C11.md): StopIteration / StopAsyncIteration (Python itself rewrites them at function boundaries),
+# GeneratorExit (Python's generator-closing protocol: a GeneratorExit that comes out of an awaited thread-pool future makes the
+# interpreter close the awaiting coroutine chain - "coroutine ignored GeneratorExit" - with no taskiq code involved),
+# exception groups that CONTAIN a no-result signal (neither clearly a failure nor clearly the signal), cancelling the task that
+# runs Receiver.callback itself.
 BUILTIN_EXC = {
     "Exception": Exception, "ValueError": ValueError, "TypeError": TypeError, "KeyError": KeyError, "LookupError": LookupError,
     "IndexError": IndexError, "AttributeError": AttributeError, "RuntimeError": RuntimeError,
@@ -171,12 +187,22 @@ BUILTIN_EXC = {
     "asyncio.QueueEmpty": asyncio.QueueEmpty, "asyncio.QueueFull": asyncio.QueueFull,
     "concurrent.futures.BrokenExecutor": concurrent.futures.BrokenExecutor,
 }
-REAL_AWAITS = ("wait_result", "wait_result_sent", "gather", "is_ready_raises", "get_result_raises", "shared_kiq")
+# BaseExceptions that are not Exceptions.  Receiver.run_task catches BaseException: an attempt that dies of one of these is a
+# failed attempt like any other (the statement: "a task that fails ... is executed again").
+BASE_EXC = {
+    "BaseException": BaseException, "asyncio.CancelledError": asyncio.CancelledError, "SystemExit": SystemExit,
+    "KeyboardInterrupt": KeyboardInterrupt,
+}
+ALL_BUILTIN = dict(BUILTIN_EXC, **BASE_EXC)
+CANCEL_PATHS = ("cancelled_task", "cancelled_future", "cancelled_gather", "cancelled_wait_for")
+REAL_AWAITS = ("wait_result", "wait_result_sent", "gather", "is_ready_raises", "get_result_raises", "shared_kiq") + CANCEL_PATHS
+REAL_SYNC = ("reject", "sys_exit")      # real paths that need no await: walked from a plain function too
 # what the awaiting real paths raise on the unchanged tree - used ONLY where the path cannot be walked (a plain function
 # cannot await): the class is then raised directly
 REAL_DIRECT = {"wait_result": "TaskiqResultTimeoutError", "wait_result_sent": "TaskiqResultTimeoutError",
                "gather": "TaskiqResultTimeoutError", "is_ready_raises": "ResultIsReadyError",
                "get_result_raises": "ResultGetError", "shared_kiq": "SendTaskError", "reject": "TaskRejectedError"}
+REAL_DIRECT_BUILTIN = dict({h: "asyncio.CancelledError" for h in CANCEL_PATHS}, sys_exit="SystemExit")
 
 
 class UserNoResult(NoResultError):
@@ -211,8 +237,8 @@ def _construct(cls):
 
 
 def enumerate_taskiq_exceptions():
-    """every exception class defined in a module of the taskiq package that can be imported here, as [module, qualname],
-    constructible ones only; NoResultError - the signal itself, by NAME - is not a way to fail"""
+    """every exception class (BaseException subclass) defined in a module of the taskiq package that can be imported here, as
+    [module, qualname], constructible ones only; NoResultError - the signal itself, by NAME - is not a way to fail"""
     import taskiq
     import warnings
     found, skipped = {}, []
@@ -228,7 +254,7 @@ def enumerate_taskiq_exceptions():
                 skipped.append([name, type(e).__name__])
                 continue
             for o in list(vars(m).values()):
-                if inspect.isclass(o) and issubclass(o, Exception) and (o.__module__ or "").split(".")[0] == "taskiq":
+                if inspect.isclass(o) and issubclass(o, BaseException) and (o.__module__ or "").split(".")[0] == "taskiq":
                     found[(o.__module__, o.__qualname__)] = o
     out = []
     for (mod, qn), cls in sorted(found.items()):
@@ -240,7 +266,9 @@ def enumerate_taskiq_exceptions():
             out.append([mod, qn])
         except Exception as e:  # noqa: BLE001
             skipped.append(["%s.%s" % (mod, qn), "not constructible: %s" % type(e).__name__])
-    return {"taskiq_excs": out, "skipped": skipped, "builtins": sorted(BUILTIN_EXC), "real": list(REAL_AWAITS) + ["reject"]}
+    real = [h for h in REAL_AWAITS if h not in CANCEL_PATHS] + ["reject"]
+    return {"taskiq_excs": out, "skipped": skipped, "builtins": sorted(BUILTIN_EXC), "real": real,
+            "base_builtins": sorted(BASE_EXC), "base_real": list(CANCEL_PATHS) + ["sys_exit"]}
 
 
 def _exc_class(spec, cache):
@@ -248,13 +276,13 @@ def _exc_class(spec, cache):
     if k == "taskiq":
         return getattr(importlib.import_module(spec["mod"]), spec["name"])
     if k == "builtin":
-        return BUILTIN_EXC[spec["name"]]
+        return ALL_BUILTIN[spec["name"]]
     if k == "user":
         key = json.dumps(spec, sort_keys=True)
         if key not in cache:
             bases = [_exc_class(spec["base"], cache)]
             if spec.get("also"):
-                bases.append(BUILTIN_EXC[spec["also"]])
+                bases.append(ALL_BUILTIN[spec["also"]])
             ns = {"__module__": __name__, "__doc__": "a user's own exception class"}
             traits = spec.get("traits") or []
             if "falsy" in traits:
@@ -284,7 +312,8 @@ def _exc_class(spec, cache):
 def build_exception(spec, cache):
     """the exception object (or, with "bare", the class) of a non-"real" spec"""
     if spec["k"] == "group":
-        return ExceptionGroup("several sub-tasks failed", [build_exception(dict(s, bare=False), cache) for s in spec["of"]])
+        # BaseExceptionGroup(..) is an ExceptionGroup iff every member is an Exception (Python's own rule)
+        return BaseExceptionGroup("several sub-tasks failed", [build_exception(dict(s, bare=False), cache) for s in spec["of"]])
     cls = _exc_class(spec, cache)
     if spec.get("bare"):
         try:
@@ -308,6 +337,13 @@ def _raise_chained(exc, chain):
         try:
             raise ValueError("handled")
         except ValueError:
+            raise exc
+    if chain == "cause_base":
+        raise exc from asyncio.CancelledError("the inner call was cancelled")
+    if chain == "context_base":
+        try:
+            raise asyncio.CancelledError("the inner call was cancelled")
+        except asyncio.CancelledError:
             raise exc
     raise exc
 
@@ -379,13 +415,54 @@ class DropBroker(LD.AsyncBroker):
         yield b""  # pragma: no cover
 
 
+def library_gives_up():
+    """library code that ends 'the program' instead of raising an error"""
+    import sys
+    sys.exit("fatal: cannot continue")
+
+
+async def cancelled_inner(how):
+    """the task body awaits something of its own that gets cancelled: asyncio.CancelledError leaks out of the body although
+    nobody cancelled the task that runs it"""
+    loop = asyncio.get_running_loop()
+    if how == "cancelled_task":
+        inner = asyncio.ensure_future(asyncio.sleep(3600))
+        await asyncio.sleep(0)
+        inner.cancel()
+        await inner
+    elif how == "cancelled_future":
+        fut = loop.create_future()
+        loop.call_soon(fut.cancel, "the connection pool was closed")     # somebody else cancels it
+        await fut
+    elif how == "cancelled_gather":
+        async def child(t):
+            await asyncio.sleep(t)
+            return t
+        kids = [asyncio.ensure_future(child(0.01)), asyncio.ensure_future(child(3600))]
+        loop.call_later(0.02, kids[1].cancel)
+        try:
+            await asyncio.gather(*kids)
+        finally:
+            for k in kids:
+                k.cancel()
+    else:
+        inner = asyncio.ensure_future(asyncio.sleep(3600))
+        loop.call_later(0.01, inner.cancel)
+        await asyncio.wait_for(inner, 10)
+    raise AssertionError("harness: %r returned instead of raising" % how)
+
+
 async def real_failure(how, ctx, n):
     """walk the real taskiq code path `how` the way a task body would; it raises"""
     from taskiq.brokers.shared_broker import AsyncSharedBroker
     from taskiq.funcs import gather
     from taskiq.task import AsyncTaskiqTask
     backend = ctx.broker.result_backend
-    if how == "reject":
+    if how in CANCEL_PATHS:
+        await cancelled_inner(how)
+    elif how == "sys_exit":
+        library_gives_up()
+    elif how == "reject":
         ctx.reject()
     elif how == "shared_kiq":
         async def sub():
@@ -440,14 +517,17 @@ class Failures:
         """raise the next failure from synchronous code"""
         spec = self.next_spec()
         if spec["k"] == "real":
-            if spec["how"] == "reject" and self.ctx is not None:
+            if spec["how"] in REAL_SYNC and (self.ctx is not None or spec["how"] != "reject"):
                 try:
-                    self.ctx.reject()
-                except Exception as e:  # noqa: BLE001
+                    library_gives_up() if spec["how"] == "sys_exit" else self.ctx.reject()
+                except BaseException as e:  # noqa: BLE001
                     self._note(e, spec)
                     _raise_chained(e, spec.get("chain"))
             # a plain function cannot await: the class the path raises, directly
-            spec = dict(spec, k="taskiq", mod="taskiq.exceptions", name=REAL_DIRECT[spec["how"]], direct=True)
+            if spec["how"] in REAL_DIRECT_BUILTIN:
+                spec = dict(spec, k="builtin", name=REAL_DIRECT_BUILTIN[spec["how"]], direct=True)
+            else:
+                spec = dict(spec, k="taskiq", mod="taskiq.exceptions", name=REAL_DIRECT[spec["how"]], direct=True)
         e = self._plain(spec)
         self._note(e, spec)
         _raise_chained(e, spec.get("chain"))
@@ -461,7 +541,7 @@ class Failures:
         except AssertionError as e:
             self.errors.append(str(e))
             raise
-        except Exception as e:  # noqa: BLE001
+        except BaseException as e:  # noqa: BLE001   (CancelledError of an inner future is what some paths are about)
             self._note(e, spec)
             if spec.get("chain"):
                 _raise_chained(e, spec["chain"])
